@@ -1,3 +1,42 @@
-(* C01 - placeholder header; theorems are added below as they are proved. *)
+(* C01 - every cell is the nearest-generator region of its generator (exact model M-Q). *)
 From Coq Require Import ZArith List.
-From MV Require Import Model.CellExact.
+From MV Require Import Model.Cycle Model.CellExact Proofs.CellProofs.
+Import ListNotations.
+Open Scope Z_scope.
+
+(* every plane of a built cell is a wall of the box or the bisector of g and one of the given sites
+   (with that site's id and shift) *)
+Theorem C01_planes_are_bisectors : forall dim lo hi g sites c,
+  build dim lo hi g sites = Some c ->
+  Forall (plane_of_input lo hi g sites) (cplanes c).
+Proof. exact planes_are_bisectors. Qed.
+Print Assumptions C01_planes_are_bisectors.
+
+(* no spurious cut: every (rational, homogeneous W>0) point of the box that is at least as close to g
+   as to every site satisfies all half spaces of the built cell - for every site order and every
+   stopping point of the loop *)
+Theorem C01_cell_superset_voronoi : forall dim lo hi g sites c p,
+  build dim lo hi g sites = Some c -> 0 < snd p ->
+  voronoi_region lo hi g sites p -> in_planes (cplanes c) p.
+Proof. exact cell_superset_voronoi. Qed.
+Print Assumptions C01_cell_superset_voronoi.
+
+Theorem C01_oracle_superset_voronoi : forall lo hi g sites c p,
+  build_all lo hi g sites = Some c -> 0 < snd p ->
+  voronoi_region lo hi g sites p -> in_planes (cplanes c) p.
+Proof. exact build_all_superset_voronoi. Qed.
+Print Assumptions C01_oracle_superset_voronoi.
+
+(* the bisector half space is exactly "at least as close to g as to s" *)
+Theorem C01_bisector_is_closer : forall g s p, 0 < snd p ->
+  (0 <= side (bisector g s) p <-> closer g s p).
+Proof. exact bisector_side. Qed.
+Print Assumptions C01_bisector_is_closer.
+
+(* every vertex is the intersection of its three planes (Cramer, exact) *)
+Theorem C01_vertex_on_its_planes : forall ps d,
+  let v := vertex_from_dual ps d in
+  let '(i, j, k) := d in
+  side (getp ps i) (vloc v) = 0 /\ side (getp ps j) (vloc v) = 0 /\ side (getp ps k) (vloc v) = 0.
+Proof. exact vertex_on_its_planes. Qed.
+Print Assumptions C01_vertex_on_its_planes.
